@@ -81,7 +81,10 @@ func main() {
 
 		for _, n := range t {
 			n = n.STRewrite(node.SymTbl{})
-			node.ByteCode(n, cr)
+			if err := node.Compile(n, cr); err != nil {
+				fmt.Printf("Compile error: %v\n", err)
+				continue
+			}
 			if v, err := virtM.Run(true); err == nil {
 				fmt.Println(v)
 			}
